@@ -221,3 +221,6 @@ def run(chk, replay):
     # the command line layer (spec/Cli.tla): every subset of the tool's options typed to the real main(), API intercepted
     from harness import cli
     cli.phase(chk, "chk2plt")
+    # the working directory changes between conversions of checkpoints typed under a relative name (PoolEnv.tla)
+    from harness import poolenv
+    poolenv.tool_phase(chk, "chk2plt")
